@@ -80,6 +80,11 @@ def inputs(tier):
     for d in (dict(kind='alt', layout=[['A', 'ASP'], ['B', 'ASPs']], lys=[['B', 'LYSs'], ['C', 'LYS']]),
               dict(kind='model', layout=[[1, 'ASP'], [2, 'ASPnoCG'], [3, 'ASPs']])):
         out.append(dict(src='c08', d=d))
+    # an atom record repeated almost on top of itself (0.004 A apart): whatever the program makes of it must not depend on the pose
+    for d in (corpus.window_desc('3SGB', 'I', 26, 5), corpus.pair_desc('ASP', 'LYS', 2.8, 'mid')):
+        out.append(dict(src='dup-record', d=d))
+    # a structure of more than 4000 atoms (several proteins side by side), far on the negative and on the positive side of the origin
+    out.append(dict(src='large', keys=['4DFR', '1FTJ', '1HPX'], motions=[[0, 'all-negative'], [13, 'generic'], [22, 'all-negative']]))
     # disulfides exactly along an axis, slid over the cell grid
     for d in (2.05, 2.3, 2.49):
         out.append(dict(src='ss-scan', d=d))
@@ -346,6 +351,28 @@ def run_case(case, ctx, acc):
     base_opts = cfg_opts(case)
     if case['src'] == 'flat':
         s = flat_fragment(case['kind']).translate(gen.seed_offset(ctx.seed))
+    elif case['src'] == 'dup-record':
+        s = corpus.build(case['d'], ctx.seed)
+        items = list(s.items)
+        k = next(i for i, it in enumerate(items) if not isinstance(it, str) and it.name == 'CB')
+        b = items[k].clone()
+        b.x += 4
+        items.insert(k + 1, b)
+        s = gen.S(items)
+    elif case['src'] == 'large':
+        lib = gen.library()
+        items, off = [], 0
+        for n, key in enumerate(case['keys']):
+            part = gen.parse_text(lib.text(key))
+            part = gen.S([i for i in part.items if (isinstance(i, str) and i.startswith('TER')) or (not isinstance(i, str) and i.alt in (' ', 'A'))])
+            for a in part.atoms:
+                a.alt = ' '
+                a.chain = 'ABCDEFGHIJ'[(ord(a.chain) + 3 * n) % 10] if a.chain.strip() else 'ABCDEFGHIJ'[3 * n % 10]
+            ext = part.extent()
+            part.translate((off - ext[0][0], 0, 0))
+            off = part.extent()[0][1] + 30000
+            items += part.items + ['TER\n']
+        s = gen.S(items).renumber_serials()
     elif case['src'] == 'c08':
         from . import c08
         d = dict(case['d'], layout=[tuple(x) for x in case['d']['layout']])
@@ -372,7 +399,7 @@ def run_case(case, ctx, acc):
         pk.seam_unrounded_hydrogens(False)
         mp = pk.run(text0, base_opts)
         rp = pk.record(mp)
-        fed = c07.hydrogens_fed_back(s, mp) if amino and case['src'] != 'c08' else None    # (feedback is written for one conformation)
+        fed = c07.hydrogens_fed_back(s, mp) if amino and case['src'] not in ('c08', 'large', 'dup-record') else None    # (feedback is written for one conformation)
         rk0 = None
         shared, rs0, bs0 = None, None, None
         if fed is not None:
@@ -394,6 +421,8 @@ def run_case(case, ctx, acc):
         for ri, rot in enumerate(gen.ROTATIONS):
             for tname, t in trs.items():
                 if ri == 0 and tname == 'none':
+                    continue
+                if case.get('motions') is not None and [ri, tname] not in case['motions']:
                     continue
                 if ctx.tier == 'quick' and tname not in QUICK_FULL and ri not in (0, 5, 13, 22):
                     continue
